@@ -98,6 +98,10 @@ func vshape(n *vnode) (s string) {
 	}
 	s = n.kind()
 	defer func() {
+		if vsubOrLtEmpty(n) {
+			// `x >= "" or x < ""`: the impossible alternative makes the whole `or` a conflict
+			s += "+or-lt-empty"
+		}
 		if vsubInEmpty(n) {
 			// an in-list with '' among its values somewhere below (its index point is a prefix
 			// of the other values' points: rows come twice)
@@ -248,6 +252,44 @@ func vinEmpty(e *vexpr) bool {
 	}
 	for _, k := range e.kids {
 		if vinEmpty(k) {
+			return true
+		}
+	}
+	return false
+}
+
+// vltEmpty: a comparison that nothing satisfies: x < "" (or its negated form not (x >= ""))
+func vltEmpty(e *vexpr) bool {
+	isEmpty := func(k *vexpr) bool { return k.op == "const" && k.val == EmptyStr }
+	switch {
+	case e.op == "lt" && isEmpty(e.kids[1]), e.op == "gt" && isEmpty(e.kids[0]):
+		return true
+	case e.op == "not" && e.kids[0].op == "ge" && isEmpty(e.kids[0].kids[1]):
+		return true
+	case e.op == "not" && e.kids[0].op == "le" && isEmpty(e.kids[0].kids[0]):
+		return true
+	}
+	return false
+}
+
+func vorLtEmpty(e *vexpr, underOr bool) bool {
+	if underOr && vltEmpty(e) {
+		return true
+	}
+	for _, k := range e.kids {
+		if vorLtEmpty(k, underOr || e.op == "or") {
+			return true
+		}
+	}
+	return false
+}
+
+func vsubOrLtEmpty(n *vnode) bool {
+	if n.op == "where" && vorLtEmpty(n.expr, false) {
+		return true
+	}
+	for _, k := range n.kids {
+		if vsubOrLtEmpty(k) {
 			return true
 		}
 	}
